@@ -35,15 +35,19 @@ DefaultPool    == {"0", "-9.81", "1e-5", "\"hello, world\"", "'a'", "gtsam::Pose
                    "std::vector<int>()", "a + b", "ns::K::Red", "f(g(1), \"x)\")", "nullptr",
                    "\"http://host/a\"", "\"/* no comment */\"", "'/'", "\"a;b\"",
                    "\"two  blanks\"", "Format(\"%d   %d\", 2)", "\",  \""}
-BasicPool      == {"void", "bool", "unsigned char", "char", "int", "size_t", "double", "float"}
+\* "mexcall": the call profile for the MATLAB runtime (matlab.h converts no float, the library types of the exec profile
+\* clash with the runtime's own gtsam types; raw-pointer results, templated functions / static methods and
+\* `unsigned char` parameters are recorded findings that stop a build or a call - they are witnessed by directed modules)
+Mex == Profile = "mexcall"
+BasicPool      == {"void", "bool", "unsigned char", "char", "int", "size_t", "double", "float"} \ (IF Mex THEN {"float", "unsigned char"} ELSE {})
 ValueBasicPool == BasicPool \ {"void"}
 BinOps         == OperatorSyms \ {"()", "[]"}
 
 \* "call": the exec profile narrowed to modules whose bindings can be CALLED from Python against a rendered, instrumented
 \* library (C04 executed half): parameter / return / property types are basic, string, template parameters or classes
 \* declared earlier in the module; bases are declared classes; every class starts with a constructor
-Call == Profile = "call"
-Exec == Profile \in {"exec", "call"}
+Call == Profile \in {"call", "mexcall"}
+Exec == Profile \in {"exec", "call", "mexcall"}
 LibTypes == {<<"Key">>, <<"gtsam", "Pose3">>, <<"gtsam", "Point3">>, <<"lib", "geo", "Shape">>, <<"Vector">>,
              <<"Tools", "Index">>, <<"POSEs", "Frame">>, <<"Values", "Entry">>, <<"Util", "Id">>}   \* namespaces that begin with a parameter's spelling
 LibTemplates == {<<"lib", "Seq">>, <<"lib", "Box">>}   \* (std::vector rejects const / reference element types)
@@ -59,7 +63,7 @@ RandPlainExec(ctx, allowVoid) ==
       declared == SelectSeq(ctx.items, LAMBDA d : d.k = "class" /\ d.tmpl = <<>>)
   IN
   IF r <= 30 THEN Ty(<<Pick(IF allowVoid THEN BasicPool ELSE ValueBasicPool)>>, <<>>, RandConst(0), IF Pct(0) <= 70 THEN "" ELSE "&", TRUE)
-  ELSE IF r <= 35 THEN Ty(<<"string">>, <<>>, RandConst(0), IF Pct(0) <= 60 THEN "" ELSE "&", FALSE)     \* no smart pointers to converted types
+  ELSE IF r <= 35 THEN Ty(<<"string">>, <<>>, RandConst(0), IF Pct(0) <= 60 \/ Mex THEN "" ELSE "&", FALSE)     \* no smart pointers to converted types (Mex: string references are a recorded finding)
   ELSE IF r <= 50 /\ ctx.tparams # {} THEN Ty(<<Pick(ctx.tparams)>>, <<>>, RandConst(0), RandQual(0), FALSE)
   ELSE IF r <= 56 /\ ctx.tparams # {} /\ ~Call THEN Ty(<<Pick(ctx.tparams), Pick(ScopedPool)>>, <<>>, RandConst(0), Pick({"", "&"}), FALSE)
   ELSE IF r <= 64 /\ ctx.cls # "" THEN Ty(<<"This">>, <<>>, RandConst(0), RandQual(0), FALSE)
@@ -131,10 +135,12 @@ RandArgs(ctx, maxn) ==
      ELSE raw
 
 RandRet(ctx) ==
-  LET r == Pct(0) IN
+  LET r == Pct(0)
+      own(t) == IF Mex /\ t.q = "@" THEN [t EXCEPT !.q = "*"] ELSE t
+  IN
   IF r <= 20 THEN Ret1(Ty(<<"void">>, <<>>, FALSE, "", TRUE))
-  ELSE IF r <= 35 THEN Ret(TRUE, RandPlain(ctx, FALSE), RandPlain(ctx, FALSE), Pct(0) <= 50)
-  ELSE Ret1(RandType(ctx, 2))
+  ELSE IF r <= 35 THEN Ret(TRUE, own(RandPlain(ctx, FALSE)), own(RandPlain(ctx, FALSE)), Pct(0) <= 50)
+  ELSE Ret1(own(RandType(ctx, 2)))
 
 RandTmpl(ctx, withLists) ==
   \* template list for a member / function / class; parameter names distinct and not already in scope
@@ -146,6 +152,7 @@ RandTmpl(ctx, withLists) ==
       declared == SelectSeq(ctx.items, LAMBDA d : d.k = "class" /\ d.tmpl = <<>>)
       CallArgs == {TN(ctx.nspath \o <<declared[j].name>>, <<>>) : j \in 1..Len(declared)}
       lst(i) == IF ~withLists THEN <<>>
+                ELSE IF Mex /\ CallArgs = {} THEN <<>>
                 ELSE IF Call /\ CallArgs # {} THEN RandDistinct(CallArgs, Pick(1..(IF Cardinality(CallArgs) > 2 THEN 2 ELSE Cardinality(CallArgs))))
                 ELSE IF Exec THEN RandDistinct(ExecArgs, Pick(1..3))            \* (a repeated argument would instantiate the same class twice)
                 ELSE [j \in 1..Pick(1..3) |-> RandTypename(1)]
@@ -184,14 +191,15 @@ RandMember(ctx) ==
                  ELSE IF Exec /\ nm = "serialize" THEN Uniq("ser", ctx.nmembers) ELSE Uniq(nm, ctx.nmembers),
                  tm, RandRet(c2), RandArgs(c2, 3), IF Exec /\ nm = "print" THEN TRUE ELSE Pct(0) <= 50)    \* (print is const in a conforming library: __repr__ calls it on a const reference)
   ELSE IF r <= 65 THEN
-       LET tm == IF Pct(0) <= 20 THEN RandTmpl(ctx, TRUE) ELSE <<>>
+       LET tm == IF Pct(0) <= 20 /\ ~Mex THEN RandTmpl(ctx, TRUE) ELSE <<>>
            c2 == WithParams(ctx, tm)
        IN Static(Uniq(Pick(StaticNamePool), ctx.nmembers), tm, RandRet(c2), RandArgs(c2, 3))
   ELSE IF r <= 78 THEN
        LET hd == Pct(0) <= 20 /\ ~Exec
            t0 == RandType(ctx, 1)
            \* (a reference member has no pointer-to-member; exec keeps value / pointer members)
-           t1 == IF Exec /\ t0.qn = <<"This">> THEN [t0 EXCEPT !.q = "*"]          \* (a class cannot hold itself by value)
+           t1 == IF Mex /\ (t0.qn = <<"This">> \/ t0.q \in {"*", "@"}) THEN Ty(<<"int">>, <<>>, t0.const, "", TRUE)   \* (pointer-typed properties: recorded finding)
+                 ELSE IF Exec /\ t0.qn = <<"This">> THEN [t0 EXCEPT !.q = "*"]          \* (a class cannot hold itself by value)
                  ELSE IF Exec /\ t0.q = "&" THEN [t0 EXCEPT !.q = ""] ELSE t0
        IN Prop(t1, Uniq(Pick(VarNamePool), ctx.nmembers), hd, IF hd THEN RandDefault(0) ELSE "")
   ELSE IF r <= 88 /\ (~Exec \/ ctx.nmembers = 2) THEN
@@ -242,7 +250,7 @@ RandLeaf(ctx) ==
        ELSE IF Call THEN Func(Uniq(Pick(FuncNamePool), ctx.cnt), <<>>, RandRet(ctx), RandArgs(ctx, 3))
        ELSE Include(Pick(HeaderPool))
   ELSE IF r <= 65 THEN
-       LET tm == IF Pct(0) <= 25 THEN RandTmpl(ctx, TRUE) ELSE <<>>
+       LET tm == IF Pct(0) <= 25 /\ ~Mex THEN RandTmpl(ctx, TRUE) ELSE <<>>      \* (Mex: templated functions / statics are recorded findings)
            c2 == WithParams(ctx, tm)
        IN Func(Uniq(Pick(FuncNamePool), ctx.cnt), tm, RandRet(c2), RandArgs(c2, 3))
   ELSE IF r <= (IF Call THEN 70 ELSE 80) THEN RandEnumU(ctx.cnt)
